@@ -146,6 +146,7 @@ type FuncSpec struct {
 	NoSafetyKinds []string // safety kinds not checked in this function (documented in the contract)
 	UseLemmas []string // lemmas / global invariants assumed in this function's proof
 	Establishes []string // global invariants this (init) function proves on return
+	PanicEnsures []Clause // obligations of an exit by panic (panicvalue = the value)
 	Defines  []Clause // definitional equations for ghost functions of a freshly constructed result (assumed at return; see DESIGN)
 	Implements []string // interface-method contracts whose ensures this function must also satisfy
 	Split []Expr // case split over the parameters: every obligation is discharged once per case (and once for 'none')
